@@ -241,7 +241,8 @@ func (r *rewriter) rewriteRange(c *astutil.Cursor, x *ast.RangeStmt) {
 		return
 	}
 	if !canonicalKey(mt.Key()) {
-		fatal("map range at %s: key type %s has no canonical order, iteration order cannot be simulated", r.pos(x), mt.Key())
+		// address-like keys: simrt orders them by address within a run (see simrt/maporder.go)
+		fmt.Fprintf(os.Stderr, "instrument: note: map range at %s has address-like keys (%s); base order is by address\n", r.pos(x), mt.Key())
 	}
 	r.tmp++
 	var hoist ast.Stmt
